@@ -1136,7 +1136,11 @@ fn aggregate_batches_morsel_parallel(
         crate::planner::PlanSchema::from_qualified_arrow(batches[0].schema().as_ref());
     let input_types: Vec<DataType> = aggregates
         .iter()
-        .map(|a| a.input.data_type(&plan_schema).unwrap_or(DataType::Float64))
+        .enumerate()
+        .map(|(i, a)| {
+            let out = schema.fields().get(group_by.len() + i).map(|f| f.data_type());
+            morsel_agg::agg_input_type(&a.input, &a.func, &plan_schema, out)
+        })
         .collect();
     let agg_funcs: Vec<AggregateFunction> = aggregates.iter().map(|a| a.func).collect();
     let agg_inputs: Vec<Expr> = aggregates.iter().map(|a| a.input.clone()).collect();
